@@ -440,6 +440,38 @@ impl Mac {
     }
 }
 
+#[cfg(lora_rs_verif)]
+pub use session::verif_next_fcnt_down;
+
+#[cfg(lora_rs_verif)]
+impl Mac {
+    pub(crate) fn verif_snapshot(&self) -> crate::verif::VerifMac {
+        use crate::verif::VerifMacState;
+        crate::verif::VerifMac {
+            data_rate: self.configuration.data_rate as u8,
+            rx1_delay: self.configuration.rx1_delay,
+            tx_power: self.configuration.tx_power,
+            rx1_dr_offset: self.configuration.rx1_dr_offset,
+            rx2_data_rate: self.configuration.rx2_data_rate.map(|d| d as u8),
+            rx2_frequency: self.configuration.rx2_frequency,
+            adr_enabled: self.configuration.adr_enabled,
+            region: self.region.verif_snapshot(),
+            state: match &self.state {
+                State::Unjoined => VerifMacState::Unjoined,
+                State::Otaa(o) => VerifMacState::Otaa { dev_nonce: o.verif_dev_nonce() },
+                State::Joined(s) => VerifMacState::Joined(s.verif_snapshot()),
+            },
+        }
+    }
+}
+
+#[cfg(lora_rs_verif)]
+impl RxWindows {
+    pub(crate) fn verif_windows(&self) -> (crate::verif::VerifWindow, crate::verif::VerifWindow) {
+        (crate::verif::window(&self.rx1), crate::verif::window(&self.rx2))
+    }
+}
+
 #[cfg_attr(feature = "defmt-03", derive(defmt::Format))]
 #[derive(Debug)]
 pub(crate) enum Response {
